@@ -603,7 +603,14 @@ func c15Schema(steps []string, edges map[string][]string, extraDeclared []string
 			{N: "items", M: "reg", Ty: &CTy{T: "list", Open: 1, E: &CTy{T: "struct", F: []*CField{{N: "v", M: "reg", Ty: &CTy{T: "string"}}}}}},
 			{N: "_dependencies", M: "reg", H: 1, Ty: &CTy{T: "deplist", V: deps}},
 		}}
-		return &CField{N: name, M: "reg", Ty: st}
+		f := &CField{N: name, M: "reg", Ty: st}
+		if strings.Contains(name, "-") {
+			f.Q = 1
+		}
+		if form, ok := c15Forms[name]; ok { // optional / required / quoted declarations of a step
+			f.M, f.Q = form.M, form.Q
+		}
+		return f
 	}
 	root.F = append(root.F, mkStep("input", edges["input"]))
 	root.F = append(root.F, mkStep("variables", nil))
@@ -616,6 +623,9 @@ func c15Schema(steps []string, edges map[string][]string, extraDeclared []string
 	g := &cueGen{}
 	return root, cueSchemaText(g, root)
 }
+
+// c15Forms: how a step is declared (mark and quoting) when it is not a plain regular field
+var c15Forms = map[string]*CField{}
 
 func c15Queries(target string) [][2]string {
 	return [][2]string{
@@ -714,6 +724,32 @@ func genC15(c *Ctx) {
 			run(4, c.R.next()&0xffff, "sampled/4-steps", i%40 == 0)
 		}
 		c.Exhaustive = true // the 3-step space is complete in this tier
+	}
+	// steps declared optional, required, quoted, quoted+optional: the same graphs, the same verdicts
+	{
+		c15Forms = map[string]*CField{"s1": {M: "opt"}, "s-2": {M: "req", Q: 1}, "s-3": {M: "opt", Q: 1}, "lonely": {M: "opt"}}
+		steps := []string{"s1", "s-2", "s-3"}
+		all := append(append([]string{"input", "variables"}, steps...), "lonely")
+		for m := uint64(0); m < 1<<9; m++ {
+			if !c.thorough() && m%4 != 1 {
+				continue
+			}
+			edges := map[string][]string{}
+			for i := 0; i < 3; i++ {
+				for j := 0; j < 3; j++ {
+					if m>>(uint(i*3+j))&1 == 1 {
+						edges[steps[i]] = append(edges[steps[i]], steps[j])
+					}
+				}
+			}
+			root, txt := c15Schema(steps, edges, []string{"lonely"})
+			for _, cp := range steps {
+				for _, target := range all {
+					c.c15Check(root, txt, all, cp, target, "declared-forms/3-steps", m%32 == 1)
+				}
+			}
+		}
+		c15Forms = map[string]*CField{}
 	}
 	// the property's own example: x->[b,c], b->[a], a->[a0]
 	{
